@@ -174,6 +174,11 @@ func check(c Case) error {
 		defSrc := ""
 		for _, d := range in.defs() {
 			defSrc += defSource(d) + "\n"
+			if _, again := macros[d.Name]; again {
+				// a name defined again (last definition wins, like every other binding): from here on the earlier inputs
+				// rightly expand differently, and re-reading them below would put the superseded definition back.
+				seen = nil
+			}
 			macros[d.Name] = d
 		}
 		if in.ViaEval {
@@ -262,6 +267,7 @@ type tgen struct {
 	t      *rapid.T
 	params []string
 	uses   map[string]int
+	sh     shapes // further template shapes (c13_shapes_test.go); the zero value draws exactly what TestSessions always drew
 }
 
 func (g *tgen) hole() *gen.Node {
@@ -285,7 +291,12 @@ func (g *tgen) template(depth int) *gen.Node {
 		return g.hole()
 	}
 	sub := func() *gen.Node { return g.template(depth - 1) }
-	switch rapid.IntRange(0, 11).Draw(g.t, "tmpl") {
+	extra := g.sh.templateShapes()
+	choice := rapid.IntRange(0, 11+len(extra)).Draw(g.t, "tmpl")
+	if choice > 11 {
+		return g.shapeTemplate(extra[choice-12], sub)
+	}
+	switch choice {
 	case 0, 1, 2:
 		return gen.Infix(rapid.SampledFrom([]string{"+", "-", "*", "%", "<<", "&", "|"}).Draw(g.t, "op"), sub(), sub())
 	case 3:
@@ -309,10 +320,22 @@ func (g *tgen) template(depth int) *gen.Node {
 	}
 }
 
-func genArg(t *rapid.T, macros []*MacroDef, depth int) (*gen.Node, bool, bool) {
+func genArg(t *rapid.T, macros []*MacroDef, depth int, sh shapes) (*gen.Node, bool, bool) {
 	lit := func() *gen.Node { return gen.IntLit(fmt.Sprint(rapid.IntRange(0, 9).Draw(t, "alit"))) }
 	v := func() *gen.Node { return gen.Id(rapid.SampledFrom([]string{"g1", "g2", "g3"}).Draw(t, "gvar")) }
-	switch rapid.IntRange(0, 9).Draw(t, "arg") {
+	top := 9
+	if sh.Slices {
+		top = 11
+	}
+	choice := rapid.IntRange(0, top).Draw(t, "arg")
+	if choice > 9 { // an argument that holds a range of its own, the start bound possibly a macro call
+		bound, _, nest := genArg(t, macros, depth-1, shapes{})
+		if choice == 10 {
+			return gen.Builtin("len", gen.Slice(seqTarget(t), bound, nil)), true, nest
+		}
+		return gen.Index(gen.Slice(seqTarget(t), bound, nil), gen.IntLit("0")), true, nest
+	}
+	switch choice {
 	case 0:
 		return lit(), false, false
 	case 1:
@@ -331,7 +354,7 @@ func genArg(t *rapid.T, macros []*MacroDef, depth int) (*gen.Node, bool, bool) {
 			args := make([]*gen.Node, len(d.Params))
 			op := false
 			for i := range args {
-				a, o, _ := genArg(t, macros, depth-1)
+				a, o, _ := genArg(t, macros, depth-1, sh)
 				args[i] = a
 				op = op || o
 			}
@@ -346,50 +369,71 @@ func genArg(t *rapid.T, macros []*MacroDef, depth int) (*gen.Node, bool, bool) {
 }
 
 func TestSessions(t *testing.T) {
-	pbt.Check(t, 2500, 250000, func(rt *rapid.T) {
-		var c Case
-		var macros []*MacroDef
-		nm := rapid.IntRange(1, 3).Draw(rt, "nmacros")
-		multiUse, nested, argOp, callSites := false, false, false, map[string]int{}
-		oddNames, adjacent := false, false
-		useSite := func() Input {
-			d := rapid.SampledFrom(macros).Draw(rt, "macro")
-			callSites[d.Name]++
+	pbt.Check(t, 2500, 250000, func(rt *rapid.T) { runSession(rt, shapes{}) })
+}
+
+// runSession draws one session, checks it and records it. sh switches on the further shapes of c13_shapes_test.go; with
+// the zero value the draws are exactly those TestSessions has always made.
+func runSession(rt *rapid.T, sh shapes) {
+	var c Case
+	var macros []*MacroDef
+	nm := rapid.IntRange(1, 3).Draw(rt, "nmacros")
+	multiUse, nested, argOp, callSites := false, false, false, map[string]int{}
+	oddNames, adjacent := false, false
+	libNamed, rangeSite, twice, later := false, false, false, false
+	useSite := func() Input {
+		d := rapid.SampledFrom(macros).Draw(rt, "macro")
+		callSites[d.Name]++
+		mkCall := func() *gen.Node {
 			args := make([]*gen.Node, len(d.Params))
 			for i := range args {
-				a, op, nest := genArg(rt, macros, 1)
+				a, op, nest := genArg(rt, macros, 1, sh)
 				args[i] = a
 				argOp = argOp || op
 				nested = nested || nest
 			}
-			call := gen.Call(gen.Id(d.Name), args...)
-			var stmts []*gen.Node
-			switch rapid.IntRange(0, 6).Draw(rt, "site") {
-			case 0:
-				stmts = []*gen.Node{gen.Println(call)}
-			case 1:
-				stmts = []*gen.Node{call}
-			case 2:
-				stmts = []*gen.Node{gen.Func("usef", []string{"a"}, false, gen.Infix("+", gen.Id("a"), call)), gen.Println(gen.Call(gen.Id("usef"), gen.IntLit("1")))}
-			case 3:
-				stmts = []*gen.Node{gen.For(gen.Assign("zi", gen.IntLit("2")), gen.Println(gen.Id("zi"), call))}
-			case 4:
-				stmts = []*gen.Node{gen.IfElse(gen.Infix(">", call, gen.IntLit("2")), []*gen.Node{gen.Println(gen.Str("big"))}, []*gen.Node{gen.Println(gen.Str("small"))})}
-			case 5:
-				stmts = []*gen.Node{gen.Println(gen.Call(gen.Id("id"), call), gen.Array(call))}
-				callSites[d.Name]++
-			default:
-				stmts = []*gen.Node{gen.Assign("zr", gen.Infix("*", call, gen.IntLit("2"))), gen.Println(gen.Id("zr"))}
-			}
-			return Input{Stmts: stmts}
+			return gen.Call(gen.Id(d.Name), args...)
 		}
-		// parameter names: plain ones, constant-style ones, and names that are also a macro, a global or a function
-		namePool := []string{"pa", "pb", "pc", "pd", "pa", "pb", "pc", "pd", "X", "PB", "N_1", "mac0", "mac1", "mac2", "g1", "pr", "x"}
-		var pending *Input                                                 // a definition input that the next definition joins (adjacent definitions in one input)
-		firstViaEval := rapid.IntRange(0, 3).Draw(rt, "firstviaeval") == 0 // the session's first macro is defined and used inside an eval("...") string
-		for i := 0; i < nm; i++ {
+		call := mkCall()
+		var stmts []*gen.Node
+		top := 6
+		if sh.Slices {
+			top = 10
+		}
+		switch rapid.IntRange(0, top).Draw(rt, "site") {
+		case 0:
+			stmts = []*gen.Node{gen.Println(call)}
+		case 1:
+			stmts = []*gen.Node{call}
+		case 2:
+			stmts = []*gen.Node{gen.Func("usef", []string{"a"}, false, gen.Infix("+", gen.Id("a"), call)), gen.Println(gen.Call(gen.Id("usef"), gen.IntLit("1")))}
+		case 3:
+			stmts = []*gen.Node{gen.For(gen.Assign("zi", gen.IntLit("2")), gen.Println(gen.Id("zi"), call))}
+		case 4:
+			stmts = []*gen.Node{gen.IfElse(gen.Infix(">", call, gen.IntLit("2")), []*gen.Node{gen.Println(gen.Str("big"))}, []*gen.Node{gen.Println(gen.Str("small"))})}
+		case 5:
+			stmts = []*gen.Node{gen.Println(gen.Call(gen.Id("id"), call), gen.Array(call))}
+			callSites[d.Name]++
+		case 6:
+			stmts = []*gen.Node{gen.Assign("zr", gen.Infix("*", call, gen.IntLit("2"))), gen.Println(gen.Id("zr"))}
+		default: // the call site is (in) a bound of a range: seq[call:], seq[call:call'], seq[n:call], seq[call op n:]
+			stmts = rangeSiteStmts(rt, top-7, call, mkCall)
+			if top-7 == 1 {
+				callSites[d.Name]++
+			}
+			rangeSite = true
+		}
+		return Input{Stmts: stmts}
+	}
+	// parameter names: plain ones, constant-style ones, and names that are also a macro, a global or a function
+	namePool := []string{"pa", "pb", "pc", "pd", "pa", "pb", "pc", "pd", "X", "PB", "N_1", "mac0", "mac1", "mac2", "g1", "pr", "x"}
+	if sh.LibNames { // ... or a function / constant of the library (the substitution does not care what a parameter is called)
+		namePool = append(namePool, libraryNames...)
+	}
+	newDef := func(name string, sameParams []string) *MacroDef {
+		params := sameParams
+		if params == nil {
 			k := rapid.IntRange(0, 4).Draw(rt, "k")
-			var params []string
 			for len(params) < k {
 				n := rapid.SampledFrom(namePool).Draw(rt, "pname")
 				dup := false
@@ -399,84 +443,138 @@ func TestSessions(t *testing.T) {
 				if !dup {
 					params = append(params, n)
 					oddNames = oddNames || !strings.HasPrefix(n, "p") || n == "pr"
+					libNamed = libNamed || isLibraryName(n)
 				}
 			}
-			g := &tgen{t: rt, params: params, uses: map[string]int{}}
-			d := &MacroDef{Name: fmt.Sprintf("mac%d", i), Params: params, Template: g.template(rapid.IntRange(1, 3).Draw(rt, "tdepth")),
-				Form: rapid.SampledFrom([]int{0, 0, 0, 1, 2, 3}).Draw(rt, "bodyform")}
-			for _, n := range g.uses {
-				if n >= 2 {
-					multiUse = true
-				}
+		}
+		g := &tgen{t: rt, params: params, uses: map[string]int{}, sh: sh}
+		d := &MacroDef{Name: name, Params: params, Template: g.template(rapid.IntRange(1, 3).Draw(rt, "tdepth")),
+			Form: rapid.SampledFrom([]int{0, 0, 0, 1, 2, 3}).Draw(rt, "bodyform")}
+		for _, n := range g.uses {
+			if n >= 2 {
+				multiUse = true
 			}
-			macros = append(macros, d)
-			if pending != nil {
-				pending.MoreDefs = append(pending.MoreDefs, d)
-				adjacent = true
-			} else {
-				c.Inputs = append(c.Inputs, Input{Def: d})
+		}
+		return d
+	}
+	// defsFor returns the definitions of one macro as they are written into ONE input: the effective one last, and with
+	// sh.Redefine sometimes 1..2 superseded definitions of the same name in front of it (same parameters or others).
+	defsFor := func(name string) []*MacroDef {
+		var all []*MacroDef
+		if sh.Redefine && rapid.IntRange(0, 1).Draw(rt, "superseded") == 0 {
+			for n := rapid.IntRange(1, 2).Draw(rt, "nsuperseded"); n > 0; n-- {
+				all = append(all, newDef(name, nil))
 			}
-			pending = nil
-			if i == 0 && firstViaEval {
-				in := &c.Inputs[len(c.Inputs)-1]
-				in.ViaEval = true
-				in.Stmts = useSite().Stmts
-				pbt.Label("session:first-macro-defined-and-used-inside-eval")
+			twice = true
+		}
+		var same []string
+		if len(all) > 0 && rapid.Bool().Draw(rt, "sameparams") {
+			same = append([]string{}, all[len(all)-1].Params...)
+		}
+		return append(all, newDef(name, same))
+	}
+	var pending *Input                                                 // a definition input that the next definition joins (adjacent definitions in one input)
+	firstViaEval := rapid.IntRange(0, 3).Draw(rt, "firstviaeval") == 0 // the session's first macro is defined and used inside an eval("...") string
+	for i := 0; i < nm; i++ {
+		all := defsFor(fmt.Sprintf("mac%d", i))
+		macros = append(macros, all[len(all)-1])
+		if pending != nil {
+			adjacent = true
+		} else {
+			c.Inputs = append(c.Inputs, Input{Def: all[0]})
+			all = all[1:]
+		}
+		last := &c.Inputs[len(c.Inputs)-1]
+		last.MoreDefs = append(last.MoreDefs, all...)
+		pending = nil
+		if i == 0 && firstViaEval {
+			in := &c.Inputs[len(c.Inputs)-1]
+			in.ViaEval = true
+			in.Stmts = useSite().Stmts
+			pbt.Label("session:first-macro-defined-and-used-inside-eval")
+			continue
+		}
+		switch rapid.IntRange(0, 3).Draw(rt, "defshape") {
+		case 0:
+			if i+1 < nm { // the next definition follows in the same input
+				pending = &c.Inputs[len(c.Inputs)-1]
 				continue
 			}
-			switch rapid.IntRange(0, 3).Draw(rt, "defshape") {
-			case 0:
-				if i+1 < nm { // the next definition follows in the same input
-					pending = &c.Inputs[len(c.Inputs)-1]
-					continue
-				}
-			case 1: // uses in the same input as the definition(s)
-				in := &c.Inputs[len(c.Inputs)-1]
-				if in.Def != nil {
-					in.Stmts = useSite().Stmts
-				}
-			}
-			for u := rapid.IntRange(1, 3).Draw(rt, "uses"); u > 0; u-- {
-				if rapid.IntRange(0, 5).Draw(rt, "panicbetween") == 0 {
-					c.Inputs = append(c.Inputs, Input{Panic: true})
-					pbt.Label("session:panic-between-definition-and-use")
-				}
-				c.Inputs = append(c.Inputs, useSite())
+		case 1: // uses in the same input as the definition(s)
+			in := &c.Inputs[len(c.Inputs)-1]
+			if in.Def != nil {
+				in.Stmts = useSite().Stmts
 			}
 		}
-		for u := rapid.IntRange(0, 3).Draw(rt, "more"); u > 0; u-- {
+		for u := rapid.IntRange(1, 3).Draw(rt, "uses"); u > 0; u-- {
+			if rapid.IntRange(0, 5).Draw(rt, "panicbetween") == 0 {
+				c.Inputs = append(c.Inputs, Input{Panic: true})
+				pbt.Label("session:panic-between-definition-and-use")
+			}
 			c.Inputs = append(c.Inputs, useSite())
 		}
-		if err := check(c); err != nil {
-			pbt.Fail(rt, "session", c, "%v", err)
+	}
+	if sh.Redefine && rapid.IntRange(0, 2).Draw(rt, "redefinelater") == 0 {
+		// a later input defines one of the names again (alone, or with uses in the same input); the uses that follow expand with it
+		i := rapid.IntRange(0, len(macros)-1).Draw(rt, "redefined")
+		all := defsFor(macros[i].Name)
+		macros[i] = all[len(all)-1]
+		in := Input{Def: all[0], MoreDefs: all[1:]}
+		if rapid.Bool().Draw(rt, "redefinedused") {
+			in.Stmts = useSite().Stmts
 		}
-		many := false
-		for _, n := range callSites {
-			if n >= 2 {
-				many = true
-			}
+		c.Inputs = append(c.Inputs, in, useSite())
+		later = true
+	}
+	for u := rapid.IntRange(0, 3).Draw(rt, "more"); u > 0; u-- {
+		c.Inputs = append(c.Inputs, useSite())
+	}
+	if err := check(c); err != nil {
+		pbt.Fail(rt, "session", c, "%v", err)
+	}
+	many := false
+	for _, n := range callSites {
+		if n >= 2 {
+			many = true
 		}
-		nt := (multiUse || many || nested) && argOp
-		lbl := "session:simple"
-		if nt {
-			lbl = "session:multi-use/multi-site/nested+operator-argument"
+	}
+	nt := (multiUse || many || nested) && argOp
+	lbl := "session:simple"
+	if nt {
+		lbl = "session:multi-use/multi-site/nested+operator-argument"
+	}
+	var sb strings.Builder
+	rangeTemplate := false
+	for _, in := range c.Inputs {
+		for _, d := range in.defs() {
+			sb.WriteString(defSource(d) + "\n")
+			rangeTemplate = rangeTemplate || holeInRangeBound(d.Template)
 		}
-		var sb strings.Builder
-		for _, in := range c.Inputs {
-			for _, d := range in.defs() {
-				sb.WriteString(defSource(d) + "\n")
-			}
-			sb.WriteString(gen.Print(in.Stmts, gen.PrintOptions{}))
-		}
-		if oddNames {
-			pbt.Label("session:parameter-named-like-constant/macro/global")
-		}
-		if adjacent {
-			pbt.Label("session:adjacent-definitions-in-one-input")
-		}
-		pbt.Case(nt, sb.String(), lbl)
-		pbt.Sample("session", strings.Split(strings.TrimSpace(sb.String()), "\n"))
-	})
+		sb.WriteString(gen.Print(in.Stmts, gen.PrintOptions{}))
+	}
+	if oddNames {
+		pbt.Label("session:parameter-named-like-constant/macro/global")
+	}
+	if adjacent {
+		pbt.Label("session:adjacent-definitions-in-one-input")
+	}
+	if libNamed {
+		pbt.Label("session:parameter-named-like-library-function")
+	}
+	if rangeTemplate {
+		pbt.Label("session:unquote-in-range-bound-of-template")
+	}
+	if rangeSite {
+		pbt.Label("session:call-site-in-range-bound")
+	}
+	if twice {
+		pbt.Label("session:name-defined-several-times-in-one-input")
+	}
+	if later {
+		pbt.Label("session:name-defined-again-in-later-input")
+	}
+	pbt.Case(nt, sb.String(), lbl)
+	pbt.Sample("session", strings.Split(strings.TrimSpace(sb.String()), "\n"))
 }
 
 func oracle(kind string, raw json.RawMessage) error {
